@@ -9,7 +9,7 @@ import sys
 import yaml
 
 from .. import core, yamlapi, sigs
-from ..gen import values as V, options as O, strings as S
+from ..gen import values as V, options as O, strings as S, shapes as SH
 from ..ref import bisim
 
 ID = 'C16'
@@ -33,7 +33,7 @@ DUMPERS = ['SafeDumper', 'CSafeDumper']
 def plan(tier, seed):
     q = tier == 'quick'
     n = 2500 if q else 60000
-    return [{'kind': 'rel', 'shard': k, 'hashseed': hs, 'n': n, 'cext': 'plain'} for k, hs in enumerate(HASHSEEDS)] + \
+    return [{'kind': 'objects', 'shard': 100 + k, 'n': 700 if q else 20000, 'cext': 'plain'} for k in range(2 if q else 4)] + [{'kind': 'rel', 'shard': k, 'hashseed': hs, 'n': n, 'cext': 'plain'} for k, hs in enumerate(HASHSEEDS)] + \
            [{'kind': 'rel', 'shard': 6 + k, 'hashseed': str(1000 + k), 'n': n, 'cext': 'plain', 'offset': n * (1 + k)} for k in range(0 if q else 6)]
 
 
@@ -77,6 +77,13 @@ def gen_spec(r):
         if shared and r.random() < 0.25:
             classes.add('shared_scalar_object')
             return r.choice(shared)
+        if shared and r.random() < 0.2:
+            # an equal but distinct twin (two equal dates that are two objects): nothing is shared, so nothing may be anchored -
+            # neither in the first dump nor in the dump of what was loaded back
+            classes.add('equal_twin_scalar')
+            twin = nodes[r.choice(shared)]
+            nodes.append([twin[0], list(twin[1])])
+            return len(nodes) - 1
         n, c = V._scalar(r)
         nodes.append(n)
         return len(nodes) - 1
@@ -276,9 +283,79 @@ def mixed_keys_case(r, ctx, i):
             ctx.violation(case, {'what': 'dump(load(dump(x))) differs from dump(x) for keys that cannot be sorted', 'first': t_sorted[:300], 'second': t2[:300]}, None)
 
 
+def objects_case(r, ctx, i):
+    """The same two clauses over the object universe of C17 (full dumper, unsafe loader): the text is a function of the graph,
+    not of the addresses its objects happen to live at, and dump(load(dump(x))) == dump(x)."""
+    import pickle
+    from . import c17
+    gs, classes = SH.gen_spec(r, cycles=True)
+    if any(n[0] in ('set', 'frozenset') and len(n[1]) > 1 for n in gs['nodes']):
+        ctx.stat('objects_skipped_set_order')        # iteration order of a rebuilt set is not its insertion order (cf. F12)
+        return
+    opts = O.gen(r, axes=('default_flow_style', 'canonical', 'indent', 'width', 'allow_unicode', 'default_style'))
+    ctx.case(core.h64('obj', repr(gs), repr(sorted(opts.items(), key=str))), True, ['objects'] + sorted(classes))
+    for dname, lname in (('Dumper', 'UnsafeLoader'), ('CDumper', 'CUnsafeLoader')):
+        if not hasattr(yaml, dname):
+            continue
+        case = {'objects': gs, 'opts': opts, 'D': dname, 'L': lname}
+        ctx.crumb(case)
+        try:
+            x = SH.build(gs)
+            t1 = yaml.dump(x, Dumper=getattr(yaml, dname), **opts)
+            t2 = yaml.dump(SH.build(gs), Dumper=getattr(yaml, dname), **opts)
+        except (yaml.YAMLError, RecursionError):
+            ctx.stat('objects_dump_failed_see_C17')
+            continue
+        ctx.stat('object_dumps', 2)
+        if t1 != t2:
+            ctx.violation(case, {'what': 'two dumps of equal object graphs built at different addresses differ (same process)', 'a': t1[:500], 'b': t2[:500]}, None)
+            continue
+        try:
+            back = yaml.load(t1, Loader=getattr(yaml, lname))
+        except yaml.YAMLError:
+            ctx.stat('objects_load_failed_see_C17')
+            continue
+        except Exception as e:
+            ctx.violation(case, {'what': 'dump(load(dump(x))) cannot be evaluated: loading the dumped text raised a non-YAML exception', 'exc': type(e).__name__, 'msg': str(e)[:200], 'text': t1[:600]}, None)
+            continue
+        m = bisim.diff(x, back, track_tuples=True)
+        changes_itself = False
+        if m is not None:
+            # classes whose restore is not the identity (a __setstate__ that records the restore, volatile attributes dropped by
+            # __getstate__): the reference for 'what comes back' is pickle's result, and the fixed point starts one step later
+            try:
+                ref = pickle.loads(pickle.dumps(x, 2))
+                m2 = bisim.diff(ref, back, track_tuples=True)
+            except Exception:
+                m2 = m
+            if m2 is not None:
+                if c17.classify(gs, opts, dname, lname, m2):
+                    ctx.stat('objects_known_finding_see_C17')
+                else:
+                    ctx.stat('objects_value_differs_see_C17')
+                continue
+            changes_itself = True
+        try:
+            t3 = yaml.dump(back, Dumper=getattr(yaml, dname), **opts)
+            if changes_itself:
+                t1 = t3
+                t3 = yaml.dump(yaml.load(t1, Loader=getattr(yaml, lname)), Dumper=getattr(yaml, dname), **opts)
+        except (yaml.YAMLError, RecursionError) as e:
+            ctx.violation(case, {'what': 'the loaded object graph cannot be dumped / loaded again', 'exc': type(e).__name__, 'first': t1[:500]}, None)
+            continue
+        ctx.stat('object_fixed_point_checks')
+        if t3 != t1:
+            ctx.violation(case, {'what': 'dump(load(dump(x))) differs from dump(x) (object graph)', 'first': t1[:600], 'second': t3[:600], 'starting_one_step_later': changes_itself}, None)
+
+
 def run(spec, ctx):
     seed = spec['seed']
     k = spec['shard']
+    if spec['kind'] == 'objects':
+        r = random.Random(core.h64('C16obj', seed, k))
+        for i in range(spec['n']):
+            objects_case(r, ctx, i)
+        return
     digests = []
     off = spec.get('offset', 0)
     for i in range(off, off + spec['n']):
@@ -327,9 +404,24 @@ def replay(case, ctx):
     elif case.get('stream_of'):
         vs, opts, classes, big = case_for(case['seed'], case['i'])
         stream_position_check([case_for(case['seed'], j)[0] for j in case['stream_of']], opts, case['perm'] * 7919 + case['i'], ctx, case)
+    elif 'objects' in case:
+        replay_objects(case, ctx)
     else:
         vs, opts, classes, big = case_for(case['seed'], case['i'])
         inproc_checks(vs, opts, case['perm'] * 7919 + case['i'], ctx, case)
+
+
+def replay_objects(case, ctx):
+    class R:
+        pass
+    gs, opts = case['objects'], case['opts']
+    real_gen, real_ogen = SH.gen_spec, O.gen
+    try:
+        SH.gen_spec = lambda r, cycles=True: (gs, set())
+        O.gen = lambda r, axes=None: opts
+        objects_case(None, ctx, 0)
+    finally:
+        SH.gen_spec, O.gen = real_gen, real_ogen
 
 
 def summarize(agg, tier):
